@@ -347,6 +347,21 @@ def trace_of(path: Path, limit=40):
     return lines
 
 
+def unresolved_guard(ctx, results):
+    """A finding on a path (or about a handler) that goes through code the analysis could not resolve is not a verdict:
+    the reason, or None."""
+    for r in results:
+        for f in r.findings:
+            if f.detail.get("unresolved"):
+                return "%s %s: %s (the rule cannot tell what this path does)" % (f.rule, f.construct, f.detail["unresolved"])
+    for r in results:
+        for f in r.findings:
+            for q, why in ctx.unresolved.items():
+                if f.construct.startswith(q):
+                    return "%s %s: %s (the rule cannot tell what the handler does)" % (f.rule, f.construct, why)
+    return None
+
+
 # ----------------------------------------------------------------------
 def load_known():
     if not os.path.exists(KNOWN_FINDINGS):
@@ -401,22 +416,10 @@ def run_check(prop_id: str, rules, tier: str, level: str, explanation: str, trus
         print("replay: rule %s on %s -> %s" % (replay_key[0], replay_key[1],
               "still reported" if any(r.findings for r in results) else "no longer reported on this tree"))
 
-    # a finding on a path that goes through code the analysis could not resolve is not a verdict
-    if error is None:
-        for r in results:
-            for f in r.findings:
-                if f.detail.get("unresolved"):
-                    error = "ANALYSIS-ERROR property=%s %s %s: %s (the rule cannot tell what this path does)" % (
-                        prop_id, f.rule, f.construct, f.detail["unresolved"])
-                    break
-            if error:
-                break
     if error is None and ctx is not None:
-        for r in results:
-            for f in r.findings:
-                for q, why in ctx.unresolved.items():
-                    if f.construct.startswith(q):
-                        error = "ANALYSIS-ERROR property=%s %s %s: %s (the rule cannot tell what the handler does)" % (prop_id, f.rule, f.construct, why)
+        g = unresolved_guard(ctx, results)
+        if g:
+            error = "ANALYSIS-ERROR property=%s %s" % (prop_id, g)
     known = load_known()
     known_keys = {(k["property"], k["rule"], k["construct"]): k for k in known.get("known", [])}
     violations = []
